@@ -734,3 +734,34 @@ def fam_discovery(tier, base):
 prop("C27", "discovery", "TLC-simulated schedules of register / deregister / subscribe / unsubscribe over 3 addresses and 3 subscribers (reader, slow reader 300 ms per message, reader), plus schedules with a subscriber that stops reading; final state judged one push interval + allowance after the last step; non-trivial = schedules with a subscriber",
      ["real store/etcdv3 service stream on an embedded etcd and the real discovery/helium dispatcher (push interval 1 s, the minimum it accepts); registrations through store.RegisterService (what Calcium.RegisterService calls)",
       "convergence is judged 2.6 s after the last step (one interval + the slow reader's lag + allowance); an unsubscribe must return within 6 s", "etcd only: miniredis emits no keyspace notifications"])
+
+
+# =========================================================================== Cluster, concurrent pairs: C22 (+C10)
+@family("cluster_conc")
+def fam_cluster_conc(tier, base):
+    r = verif.model_check("MC_ClusterConc", "MC_ClusterConc.cfg", timeout=3000, workers=1)
+    inputs, trace = base + ".in.ndjson", base + ".trace.ndjson"
+    pairs, racy = {}, {}
+    for x in r.tagged("INPUT"):
+        d = json.loads(x)
+        k = (d["pre"], d["a"], d["b"])
+        pairs[k] = True
+        if d["outcome"] != "ok":
+            racy[k] = d["outcome"]
+    with open(inputs, "w") as f:
+        for (pre, a, b) in sorted(pairs):
+            f.write(json.dumps({"pre": pre, "a": a, "b": b}) + "\n")
+    bdrv = verif.build_driver("cluster")
+    verif.run_driver_sharded(bdrv, "TestClusterConc", inputs, trace, shards=14, timeout=7000)
+    os.remove(inputs)
+    viols, tr = verif.validate_trace("Trace_ClusterConc", "Trace_ClusterConc.cfg", trace, heap="16g")
+    lines = verif.read_lines(trace)
+    return dict(trace=trace, viols=viols, states=r.distinct, transitions=r.generated, configs=["MC_ClusterConc.cfg", "Trace_ClusterConc.cfg"], window=0,
+                traces={"*": len(lines)}, samples={"*": [{k: v for k, v in json.loads(x).items() if k != "snap"} for x in lines[:3]]},
+                nontrivial={"C22": sum(1 for ln in lines if '"reached":true' in ln), "C10": len(lines)},
+                notes="model: every interleaving of two operations from {add-pod, remove-pod, add-node, remove-node, create, remove} over 3 pre-states at store-access grain (%d states); it predicts races for %s and finds every other pair race-free; code: %d pairs x pre-states, operation B executed to completion inside every window of operation A (%d windows at store / plugin / engine / key-value access grain)" % (
+                    r.distinct, sorted({"%s||%s/%s: %s" % (a, b, pre, o) for (pre, a, b), o in racy.items()}), len(pairs), len(lines)))
+
+
+ALSO["C22"] = ["cluster_conc"]
+ALSO["C10"] = ["cluster_conc"]
